@@ -1,17 +1,11 @@
 # /verif top-level: `make setup` builds everything from files on disk (offline).
 .PHONY: setup coq harness clean
-setup: coq harness
-
+setup:
+	python3 tools/setup.py all
 coq:
-	cd coq && coq_makefile -f _CoqProject -o Makefile $$(ls theories/*.v props/*.v gen/*.v 2>/dev/null) \
-	  && ls theories/*.v props/*.v gen/*.v 2>/dev/null > .srcs.stamp.tmp \
-	  && python3 -c "import sys; open('.srcs.stamp','w').write('\n'.join(open('.srcs.stamp.tmp').read().split()))" \
-	  && rm -f .srcs.stamp.tmp && timeout 3000 $(MAKE) -j16
-
+	python3 tools/setup.py coq
 harness:
-	cp -n /repo/Cargo.lock harness/Cargo.lock || true
-	cd harness && CARGO_NET_OFFLINE=true CARGO_TARGET_DIR=/verif/.cache/target RUSTFLAGS="--cfg ommx_verif" cargo build --release --offline
-
+	python3 tools/setup.py harness
 clean:
 	rm -rf .cache coq/Makefile coq/Makefile.conf coq/.Makefile.d coq/.srcs.stamp
-	find coq -name '*.vo' -o -name '*.vok' -o -name '*.vos' -o -name '*.glob' -o -name '.*.aux' | xargs rm -f
+	find coq \( -name '*.vo' -o -name '*.vok' -o -name '*.vos' -o -name '*.glob' -o -name '.*.aux' \) -delete
